@@ -124,4 +124,23 @@ def gen(tier, rng, boost=1):
         for _ in range(rng.choice([1, 2, 4])):
             parts.append(units(wi, encs(wi, [rand_scalar(rng) for _ in range(rng.choice([0, 1, 3, 20]))])))
         ops.append(f"utf.write {ty} {rng.choice([0, 1])} {rng.choice(['skip', 'throw'])} {wi} {';'.join(parts)}")
+    # writer: a rejected Write (ill-formed text under ThrowError; text ending inside a character under any policy) between accepted
+    # ones must leave nothing in the stream
+    bad_mid = {8: [0xFF, 0x80, 0xC3], 16: [0xDC00, 0xDFFF], 32: [0xD800, 0x110000]}
+    bad_end = {8: [[0xC3], [0xE2, 0x98], [0xF0, 0x9F, 0x98]], 16: [[0xD83D], [0xD800]], 32: []}
+    for _ in range((300 if tier == "quick" else 3000) * boost):
+        ty = rng.choice(TYPES)
+        wi = rng.choice(WIDTHS)
+        pol = rng.choice(["skip", "throw", "throw"])
+        parts = []
+        for _ in range(rng.choice([2, 3, 5])):
+            us = encs(wi, [rand_scalar(rng) for _ in range(rng.choice([1, 3, 20]))])
+            r = rng.random()
+            if r < 0.35:
+                us = us + [rng.choice(bad_mid[wi])] + encs(wi, [rand_scalar(rng) for _ in range(rng.choice([0, 2]))])
+            elif r < 0.6 and bad_end[wi]:
+                us = us + rng.choice(bad_end[wi])
+            parts.append(units(wi, us))
+        parts.append(units(wi, encs(wi, [rand_scalar(rng) for _ in range(rng.choice([1, 4]))])))
+        ops.append(f"utf.write {ty} {rng.choice([0, 1])} {pol} {wi} {';'.join(parts)}")
     return ops
